@@ -53,6 +53,12 @@ func (pin ProofInnerNode) stringIndented(indent string) string {
 }
 
 func (pin ProofInnerNode) Hash(childHash []byte) []byte {
+	if len(pin.Left) != 0 && len(pin.Right) != 0 {
+		// A proof node names exactly one sibling, the other child is the hash computed so far. A node that
+		// carries both would have one of them silently ignored (proof malleability), so it hashes to nothing
+		// and can never reproduce a real root.
+		return nil
+	}
 	hasher := tmhash.New()
 	buf := new(bytes.Buffer)
 
